@@ -541,4 +541,80 @@ Proof.
   exact (C12_tail_st_lemma t f_new r (f_stmts f_old) Hget Hrec Hsame).
 Qed.
 
+(** ** attribution: the statement reported is the first edited one *)
+Lemma check_loop_first k : forall i sm hs j,
+  i <= j < i + k ->
+  (forall m, i <= m < j -> m < length sm /\ exists a, nth_error sm m = Some a /\ nth_error hs m = Some a) ->
+  (length sm <= j \/ exists a b, nth_error sm j = Some a /\ nth_error hs j = Some b /\ a <> b) ->
+  check_loop hash hash_eqb k i sm hs = Some (Some j).
+Proof.
+  induction k as [|k IH]; intros i sm hs j Hj Hsame Hdiff; [lia|].
+  simpl. destruct (Nat.eq_dec i j) as [->|Hij].
+  - destruct Hdiff as [Hl|(a & b & Ha & Hb & Hab)].
+    + assert (length sm <=? j = true) as -> by (apply Nat.leb_le; exact Hl). reflexivity.
+    + assert (j < length sm) as Hlt by (apply nth_error_Some; congruence).
+      assert (length sm <=? j = false) as -> by (apply Nat.leb_gt; exact Hlt).
+      rewrite Ha, Hb. destruct (hash_eqb a b) eqn:E; [apply hash_eqb_spec in E; contradiction|reflexivity].
+  - destruct (Hsame i) as (Hl & a & Ha & Hb); [lia|].
+    assert (length sm <=? i = false) as -> by (apply Nat.leb_gt; exact Hl).
+    rewrite Ha, Hb.
+    assert (hash_eqb a a = true) as -> by (apply hash_eqb_spec; reflexivity).
+    apply IH; [lia| |exact Hdiff]. intros m Hm. apply Hsame. lia.
+Qed.
+
+(** The first [j] statements are as recorded, statement [j+1] (one of the
+    applied ones) is not -- or the file ends there: the error names exactly
+    statement [j+1], or the two versions of the file collide at that prefix. *)
+Lemma C12_attribution_lemma (t : list rev) fs f r old j :
+  tbl_get t (f_version f) = Some r -> recorded r old ->
+  j < r_applied r ->
+  firstn j (f_stmts f) = firstn j old ->
+  firstn (S j) (f_stmts f) <> firstn (S j) old ->
+  hd false fs = false ->
+  forall o t' fs' es, execute f t fs = (o, t', fs', es) ->
+  o = OHistory (S j) \/
+  (concat (firstn (S j) (f_stmts f)) <> concat (firstn (S j) old) /\
+   HS (concat (firstn (S j) (f_stmts f))) = HS (concat (firstn (S j) old))).
+Proof.
+  intros Hget Hrec Hj Hsame Hdiff Hfs o t' fs' es Hex.
+  set (stmts := f_stmts f) in *.
+  pose proof Hrec as [Hk _].
+  assert (Hjl : j <= length stmts).
+  { assert (length (firstn j stmts) = length (firstn j old)) as E by (rewrite Hsame; reflexivity).
+    rewrite !firstn_length in E. lia. }
+  assert (Hpref : forall m, 0 <= m < j ->
+            m < length (sums hash HS stmts) /\
+            exists a, nth_error (sums hash HS stmts) m = Some a /\ nth_error (r_hashes r) m = Some a).
+  { intros m Hm. rewrite sums_length. split; [lia|].
+    exists (HS (concat (firstn (S m) stmts))). split; [apply sums_nth; lia|].
+    rewrite (recorded_nth hash HS _ _ _ Hrec) by lia. do 2 f_equal.
+    assert (firstn (S m) stmts = firstn (S m) (firstn j stmts)) as -> by (rewrite firstn_firstn; f_equal; lia).
+    rewrite Hsame, firstn_firstn. do 2 f_equal. lia. }
+  assert (Hcl : check_loop hash hash_eqb (r_applied r) 0 (sums hash HS stmts) (r_hashes r) = Some (Some j) \/
+                (concat (firstn (S j) stmts) <> concat (firstn (S j) old) /\
+                 HS (concat (firstn (S j) stmts)) = HS (concat (firstn (S j) old)))).
+  { destruct (le_lt_dec (length stmts) j) as [Hl|Hl].
+    - left. apply check_loop_first; [lia|exact Hpref|left; rewrite sums_length; exact Hl].
+    - assert (Hcne : concat (firstn (S j) stmts) <> concat (firstn (S j) old)).
+      { intros Hc. apply Hdiff.
+        destruct (nth_error_some_lt stmts j Hl) as [x Hx].
+        destruct (nth_error_some_lt old j) as [y Hy]; [lia|].
+        rewrite (firstn_S_snoc stmts j x Hx), (firstn_S_snoc old j y Hy) in *.
+        rewrite !concat_app in Hc. simpl in Hc. rewrite !app_nil_r in Hc.
+        rewrite Hsame in Hc. apply app_inv_head in Hc. subst. rewrite Hsame. reflexivity. }
+      destruct (hash_eqb (HS (concat (firstn (S j) stmts))) (HS (concat (firstn (S j) old)))) eqn:Eh.
+      + apply hash_eqb_spec in Eh. right. split; assumption.
+      + left. apply check_loop_first; [lia|exact Hpref|right].
+        exists (HS (concat (firstn (S j) stmts))), (HS (concat (firstn (S j) old))).
+        split; [apply sums_nth; exact Hl|]. split; [apply (recorded_nth hash HS _ _ _ Hrec); exact Hj|].
+        intros E. rewrite E in Eh.
+        assert (hash_eqb (HS (concat (firstn (S j) old))) (HS (concat (firstn (S j) old))) = true) as X
+          by (apply hash_eqb_spec; reflexivity). congruence. }
+  destruct Hcl as [CL|Hcol]; [left|right; exact Hcol].
+  unfold ExecModel.execute in Hex. fold stmts in Hex. rewrite Hget in Hex.
+  unfold write at 1 in Hex. rewrite pop_hd_tl, Hfs in Hex. cbn [negb] in Hex.
+  assert (0 <? r_applied r = true) as Hp by (apply Nat.ltb_lt; lia). rewrite Hp, CL in Hex.
+  destruct (write (tbl_put t r) (tl fs) r) as [[[ok2 t2] fs2] e2]. inversion Hex. reflexivity.
+Qed.
+
 End Proofs.
